@@ -264,7 +264,7 @@ def lit_value(txt):
     digits = (ip + fp) or "0"
     v = Fraction(int(digits or "0"), 10 ** len(fp))
     if ex not in ("", "+", "-"):
-        v *= Fraction(10) ** int(ex)
+        v *= Fraction(10) ** max(-100000, min(100000, int(ex)))
     return -v if neg else v
 
 
@@ -438,3 +438,148 @@ def mutate(rng, b):
             j = rng.randrange(i, min(len(b), i + 6) + 1)
             b[i:i] = b[i:j]
     return bytes(b)
+
+
+# ------------------------------------------------------------------------------------------------ document terms (API-built documents)
+BOUND_U = [0, 1, 9, 10, 127, 128, 255, 256, 65535, 65536, 2 ** 31 - 1, 2 ** 31, 2 ** 32 - 1, 2 ** 32, 2 ** 53, 2 ** 63 - 1, 2 ** 63, 2 ** 64 - 1, 10 ** 19, 99999999999999999]
+BOUND_I = [0, -1, 1, -32, -33, -128, -129, -32768, -32769, -2 ** 31, -2 ** 31 - 1, 2 ** 31 - 1, 2 ** 31, -2 ** 63, 2 ** 63 - 1, -10 ** 18, 123456789]
+BOUND_F32 = [0, 0x80000000, 0x3F800000, 0xBF800000, 0x3FC00000, 1, 0x007FFFFF, 0x00800000, 0x7F7FFFFF, 0x7F800000, 0xFF800000, 0x7FC00000, 0x4B800000,
+             0x4B18967F, 0x4B189680, 0x4B189681, 0x3727C5AC, 0x3727C5AB, 0x3727C5AD, 0x41200000, 0x3DCCCCCD, 0x4CBEBC20, 0x501502F9, 0x5F000000, 0x5EFFFFFF, 0x4F000000, 0x4EFFFFFF,
+             0x42C80000, 0x3A83126F, 0x461C3C00, 0x47C34FF3, 0x49742400, 0x497423F0]
+BOUND_F64 = [0, 1 << 63, 0x3FF0000000000000, 0x3FF8000000000000, 0x3FB999999999999A, 1, 0x000FFFFFFFFFFFFF, 0x0010000000000000, 0x7FEFFFFFFFFFFFFF, 0x7FF0000000000000,
+             0xFFF0000000000000, 0x7FF8000000000000, 0x416312D000000000, 0x416312CFFFFFFFFF, 0x416312D000000001, 0x3EE4F8B588E368F1, 0x3EE4F8B588E368F0, 0x3EE4F8B588E368F2,
+             0x4170000000000000, 0x41F0000000000000, 0x4340000000000000, 0x43E0000000000000, 0x43F0000000000000, 0x400921FB54442D18, 0x3FD5555555555555, 0x40C3880000000000,
+             0x3FEFFFFFFFFFFFFF, 0x4023FFFFFFFFFFFF, 0x412E847FFFFFFFFF, 0x54B249AD2594C37D, 0x2B2BFF2EE48E0530, 0x7E37E43C8800759C, 0x01A56E1FC2F8F359, 0x47EFFFFFE0000000]
+RAW_JSON = [b"[1,2]", b'"x"', b"true", b'{"a":null}', b"1.5", b"null", b"[]", b"-0", b'"\\u00e9"']
+
+
+def gen_doc_term(rng, depth=0, maxdepth=4, budget=None, raw="json", top=True):
+    """tree with 'L' (linked string) and 'R' nodes, object members (key, value, linked?)"""
+    budget = budget if budget is not None else [rng.choice([1, 4, 10, 25])]
+    budget[0] -= 1
+    r = rng.random()
+    if depth >= maxdepth or budget[0] <= 0:
+        r *= 0.72
+    if r < 0.05:
+        return ("N",)
+    if r < 0.1:
+        return ("B", rng.random() < 0.5)
+    if r < 0.2:
+        return ("U", rng.choice(BOUND_U) if rng.random() < 0.7 else rng.getrandbits(rng.choice([8, 16, 32, 64])))
+    if r < 0.3:
+        return ("I", rng.choice(BOUND_I) if rng.random() < 0.7 else rng.randrange(-2 ** 63, 2 ** 63) >> rng.choice([0, 16, 32, 48]))
+    if r < 0.4:
+        return ("f", rng.choice(BOUND_F32) if rng.random() < 0.5 else rng.getrandbits(32))
+    if r < 0.5:
+        c = rng.random()
+        if c < 0.45:
+            return ("d", rng.choice(BOUND_F64))
+        if c < 0.6:
+            x = struct.unpack("<f", struct.pack("<I", rng.getrandbits(32)))[0]
+            if x == x:
+                return ("d", double_bits(x))
+        if c < 0.8:
+            return ("d", double_bits(rng.choice([1, -1]) * rng.random() * 10.0 ** rng.randrange(-20, 25)))
+        return ("d", rng.getrandbits(64))
+    if r < 0.64:
+        n = rng.choice([0, 1, 2, 3, 5, 8, 31, 32])
+        s = bytes(rng.choice([0x61, 0x7A, 0x30, 0x20, 0x22, 0x5C, 0x2F, 0x08, 0x0C, 0x0A, 0x0D, 0x09, 0x00, 0x01, 0x1F, 0x7F, 0x80, 0xC3, 0xA9, 0xFF, 0x27]) if rng.random() < 0.8 else rng.getrandbits(8) for _ in range(n))
+        if rng.random() < 0.25:
+            return ("L", s.replace(b"\x00", b"0"))
+        return ("S", s)
+    if r < 0.72 and raw:
+        if raw == "json":
+            return ("R", rng.choice(RAW_JSON))
+        import mpack
+        v = mpack.gen_value(rng, depth=3, maxdepth=3)
+        return ("R", mpack.encode(v, rng))
+    if r < 0.86:
+        n = rng.choice([0, 1, 2, 3, 3, 15, 16, 17] if rng.random() < 0.15 else [0, 1, 2, 3])
+        return ("A", [gen_doc_term(rng, depth + 1, maxdepth, budget, raw, False) for _ in range(n)])
+    n = rng.choice([0, 1, 2, 3, 15, 16, 17] if rng.random() < 0.1 else [0, 1, 2, 3])
+    ms = []
+    seen = set()
+    for i in range(n):
+        k = bytes(rng.choice([0x61, 0x62, 0x22, 0x5C, 0x0A, 0x00, 0xC3, 0xFF, 0x30]) for _ in range(rng.choice([0, 1, 1, 2, 3]))) if n < 10 else b"k%d" % i
+        linked = rng.random() < 0.2
+        if linked:
+            k = k.replace(b"\x00", b"n")
+        while k in seen:
+            k += b"%d" % i
+        seen.add(k)
+        ms.append((k, gen_doc_term(rng, depth + 1, maxdepth, budget, raw, False), linked))
+    return ("O", ms)
+
+
+def stored_tree(t):
+    """the tree the library stores for a term: L -> S, double narrowed to float when lossless, members without flags"""
+    k = t[0]
+    if k == "L":
+        return ("S", t[1])
+    if k == "d":
+        v = f64_value(t[1])
+        if v == "nan":
+            return t
+        x = struct.unpack("<d", struct.pack("<Q", t[1]))[0]
+        try:
+            f = struct.unpack("<f", struct.pack("<f", x))[0]
+        except OverflowError:
+            return t
+        if f == x:
+            return ("f", float_bits(f) if not (x == 0 and t[1] >> 63) else 0x80000000)
+        return t
+    if k == "A":
+        return ("A", [stored_tree(x) for x in t[1]])
+    if k == "O":
+        return ("O", [(m[0], stored_tree(m[1])) for m in t[1]])
+    return t
+
+
+def strip_json_ws(text):
+    out = bytearray()
+    ins = False
+    esc = False
+    for c in text:
+        if ins:
+            out.append(c)
+            if esc:
+                esc = False
+            elif c == 0x5C:
+                esc = True
+            elif c == 0x22:
+                ins = False
+        else:
+            if c in b" \t\r\n":
+                continue
+            out.append(c)
+            if c == 0x22:
+                ins = True
+    return bytes(out)
+
+
+def py_json_parse(text):
+    """strict RFC 8259 parse with Python's json; strings come back as bytes (latin-1 transport), numbers as int or ('Q', Fraction, sig)"""
+    import json as _json
+
+    def bad_const(x):
+        raise ValueError("constant " + x)
+
+    def conv(o):
+        if o is None:
+            return ("N",)
+        if o is True or o is False:
+            return ("B", o)
+        if isinstance(o, int):
+            return ("Z", o)
+        if isinstance(o, tuple):
+            return o
+        if isinstance(o, str):
+            return ("S", o.encode("latin-1", errors="surrogatepass") if all(ord(ch) < 256 for ch in o) else o.encode("utf-16", errors="surrogatepass"))
+        if isinstance(o, list):
+            if o and isinstance(o[0], tuple) and o[0][0] == "__pairs__":
+                return ("O", [(k.encode("latin-1") if all(ord(ch) < 256 for ch in k) else k.encode("utf-16", errors="surrogatepass"), conv(v)) for k, v in o[0][1]])
+            return ("A", [conv(x) for x in o])
+        raise ValueError(o)
+    obj = _json.loads(text.decode("latin-1"), parse_constant=bad_const, parse_float=lambda s: ("Q", lit_value(s), sig_digits(s)),
+                      object_pairs_hook=lambda ps: [("__pairs__", ps)])
+    return conv(obj)
